@@ -35,7 +35,14 @@ func (fx *fexec) externModel(key string, x *ssa.Call, f *ssa.Function, args []Va
 	case "bytes.Equal":
 		vc.note("extern bytes.Equal: extensional equality of the byte sequences (assumed)")
 		sc := &SpecCtx{vc: vc, st: st, old: st}
-		return Val{Ty: rt, T: vc.define(x.Name(), sc.bytesEqual(args[0], args[1]).T)}, true
+		r := vc.define(x.Name(), sc.bytesEqual(args[0], args[1]).T)
+		// equal byte sequences convert to equal strings and vice versa (string(b) is a
+		// function of the bytes, and an injective one)
+		heapOf := func(c, s string) Term { return vc.heapGet(st, c, s) }
+		sa := vc.pureApp("string.ofbytes", []Val{args[0]}, types.Typ[types.String], heapOf)
+		sb := vc.pureApp("string.ofbytes", []Val{args[1]}, types.Typ[types.String], heapOf)
+		vc.assert(eq(r, eq(sa, sb)))
+		return Val{Ty: rt, T: r}, true
 	case "bytes.HasPrefix":
 		// len(s) >= len(p) and the first len(p) bytes agree
 		vc.note("extern bytes.HasPrefix: the first len(prefix) bytes agree (assumed)")
